@@ -216,6 +216,16 @@ def _mono_mul(m1, m2):
         if isinstance(a, tuple) and a[0] == "num" and not isinstance(e, Poly) and e.denominator == 1:
             extra.append(Poly.const(Fraction(a[1]) ** int(e)))
             continue
+        if isinstance(a, tuple) and a[0] == "num" and isinstance(e, Poly):
+            # p^(k + rest) = p^k * p^rest for the integer part k of the constant term of a symbolic exponent
+            c0 = e.terms.get((), Fraction(0))
+            k = c0.numerator // c0.denominator
+            if k != 0:
+                extra.append(Poly.const(Fraction(a[1]) ** int(k)))
+                e = e + Poly.const(-k)
+                e = e.as_const() if e.as_const() is not None else e
+                if not isinstance(e, Poly) and e == 0:
+                    continue
         out.append((a, e))
     out.sort(key=lambda ae: repr(ae[0]))
     return tuple(out), (extra or None)
@@ -495,6 +505,11 @@ class Translator:
                 return x * x
             if fn in POWER and len(e.args) == 2:
                 return self.tr(e.args[0]).pow(self.tr(e.args[1]))
+            if fn in ("np.divide", "numpy.divide", "np.true_divide") and len(e.args) == 2:
+                # a where= mask only guards the pole (checked by the rule that uses this translation)
+                return self.tr(e.args[0]) / self.tr(e.args[1])
+            if fn in ("np.multiply", "numpy.multiply") and len(e.args) == 2 and not e.keywords:
+                return self.tr(e.args[0]) * self.tr(e.args[1])
             if fn in IDENT and len(e.args) >= 1:
                 return self.tr(e.args[0])
             if fn in ABS and len(e.args) == 1:
